@@ -157,7 +157,7 @@ pub fn run(args: &Args, rep: &mut Report) {
     let mut drv = Drv::spawn(&args.str("driver", "/verif/lean/.lake/build/bin/driver"));
     let timeout = args.num("timeout-ms", 10000);
     let reps = args.num("reps", 5) as usize;
-    rep.rule = "(1) complete enumeration: stage width 2..16 × pool size {width, width+3} × {user-supplied pool, default pool, batch-inner stage, async dispatcher} × 5 repeated dispatches, each with rendezvous systems (every system waits until all siblings are inside run); distinct = configurations; non-trivial = all of them (width ≥ 2); plus negative controls (pool smaller than the stage must time out). (2) generated cases: a configuration (build / build_async; dispatch called from the main thread, a worker of a foreign pool or of the own pool; dispatch / dispatch_par / run_now; default pool with RAYON_NUM_THREADS chosen by the harness, user-supplied pool given before or after the batches, pools given to batch builders) and registrations (stages of widths 1..pool size with uniform or mixed running-time hints, resource-touching or resource-free systems, groups of several systems, batches and nested batches narrower / wider than their parent, plus the profile-driven generator of the plan engine); the plan is read from the shape hooks and must equal the model's; every stage with at least two groups of every dispatcher is rendezvoused on (one waiting system per group, batch controllers included) over repeated dispatches, in a child process per RAYON_NUM_THREADS value; distinct = configuration x plan shape; non-trivial = at least one rendezvous experiment".into();
+    rep.rule = "(1) complete enumeration: stage width 2..16 × pool size {width, width+3} × {user-supplied pool, default pool, batch-inner stage, async dispatcher} × 5 repeated dispatches, each with rendezvous systems (every system waits until all siblings are inside run); distinct = configurations; non-trivial = all of them (width ≥ 2); plus negative controls (pool smaller than the stage must time out). (2) generated cases: a configuration (build / build_async; dispatch called from the main thread, a worker of a foreign pool or of the own pool; dispatch / dispatch_par / run_now; default pool with RAYON_NUM_THREADS chosen by the harness, user-supplied pool given before or after the batches, pools given to batch builders) and registrations (stages of widths 1..pool size with uniform or mixed running-time hints, resource-touching or resource-free systems, groups of several systems, batches and nested batches narrower / wider than their parent, plus the profile-driven generator of the plan engine); the plan is read from the shape hooks and must equal the model's; every stage with at least two groups of every dispatcher is rendezvoused on (one waiting system per group, batch controllers included) over repeated dispatches, in a child process per RAYON_NUM_THREADS value; distinct = configuration x plan shape; non-trivial = at least one rendezvous experiment. (3) generated call sequences on an async dispatcher: two to four dispatch() calls, back to back or separated by wait / wait_without_tl / running / world, then wait; a stage exactly as wide as the pool (or narrower) behind zero to two narrow stages, the first of which stays inside run for 10-25 ms while the experiment is on a later stage; default pool and user-supplied pools; same experiments and oracles, every dispatch of the sequence must rendezvous; distinct = configuration x plan shape x call sequence".into();
     rep.exhaustive = true;
     // how many threads does the default pool have here?
     let default_threads = {
@@ -165,7 +165,7 @@ pub fn run(args: &Args, rep: &mut Report) {
         tp.current_num_threads()
     };
     rep.add("default_pool_threads", default_threads as u64);
-    let one = args.get("replay").and_then(|f| std::fs::read_to_string(f).ok()).map(|t| t.lines().next().unwrap_or("").to_string());
+    let one = args.get("replay").and_then(|f| std::fs::read_to_string(f).ok()).map(|t| t.lines().find(|l| !l.starts_with('#') && !l.trim().is_empty()).unwrap_or("").to_string());
     if one.as_ref().map(|l| l.starts_with("rdv ")).unwrap_or(false) {
         // a generated case
         crate::engines::rdv_gen::run_generated(args, rep, &mut drv);
